@@ -18,7 +18,7 @@ def _run_child(pid, scn, seed, outpath, replay_overrides=None, replay_only=False
     import torch
     torch.set_num_threads(1)
     torch.set_default_dtype(torch.float64)
-    from symten.scn import Scenario, reset_all
+    from symten.scn import Scenario, reset_all, ScenarioAbort
     from symten.core import Unsupported, HarnessError
     from pysym import NotEncodable
     mod = importlib.import_module("harness." + pid)
@@ -38,6 +38,8 @@ def _run_child(pid, scn, seed, outpath, replay_overrides=None, replay_only=False
             if not S.violations:
                 res["status"] = "inconclusive"
             res["reason"] = "Unsupported: %s" % e
+        except ScenarioAbort as e:
+            res = S.result()
         except NotEncodable as e:
             res = S.result()
             if not S.violations:
